@@ -264,30 +264,39 @@ def const_int(node):
 
 
 def uexpr(node, names, where):
+    """lambda body -> nested list, e.g. ["UDiv", ["UCst", 1], ["UX"]]"""
     if isinstance(node, ast.Name):
         if node.id in names:
-            return names[node.id]
+            return [names[node.id]]
         raise Untranslatable(f"{where}: free name `{node.id}`")
     if isinstance(node, ast.Constant):
-        return f"(UCst ({const_int(node)})%Z)"
+        return ["UCst", const_int(node)]
     if isinstance(node, ast.UnaryOp) and isinstance(node.op, ast.USub):
         if isinstance(node.operand, ast.Constant):
-            return f"(UCst ({const_int(node)})%Z)"
-        return f"(UNeg {uexpr(node.operand, names, where)})"
+            return ["UCst", const_int(node)]
+        return ["UNeg", uexpr(node.operand, names, where)]
     if isinstance(node, ast.BinOp):
         ops = {ast.Add: "UAdd", ast.Sub: "USub", ast.Mult: "UMul", ast.Div: "UDiv", ast.Pow: "UPow"}
         if type(node.op) in ops:
-            return f"({ops[type(node.op)]} {uexpr(node.left, names, where)} {uexpr(node.right, names, where)})"
+            return [ops[type(node.op)], uexpr(node.left, names, where), uexpr(node.right, names, where)]
     if isinstance(node, ast.Call) and not node.keywords and isinstance(node.func, ast.Attribute) \
             and isinstance(node.func.value, ast.Name):
         mod, fn = node.func.value.id, node.func.attr
         if mod == "math" and fn in MATHFN and len(node.args) == 1:
-            return f"({MATHFN[fn]} {uexpr(node.args[0], names, where)})"
+            return [MATHFN[fn], uexpr(node.args[0], names, where)]
         if mod == "math" and fn == "pow" and len(node.args) == 2:
-            return f"(UPow {uexpr(node.args[0], names, where)} {uexpr(node.args[1], names, where)})"
+            return ["UPow", uexpr(node.args[0], names, where), uexpr(node.args[1], names, where)]
         if mod == "DifferentiableMath" and fn == "atan" and len(node.args) == 1 and where.startswith("atan2"):
-            return f"(UAtan {uexpr(node.args[0], names, where)})"
+            return ["UAtan", uexpr(node.args[0], names, where)]
     raise Untranslatable(f"{where}: `{U(node)[:80]}`")
+
+
+def coq_of(t):
+    if t[0] == "UCst":
+        return f"(UCst ({t[1]})%Z)"
+    if len(t) == 1:
+        return t[0]
+    return "(" + t[0] + " " + " ".join(coq_of(a) for a in t[1:]) + ")"
 
 
 def triple_of_call(call, where, extra_names=None):
@@ -569,14 +578,14 @@ def main():
          "(* ---- (operator, first derivative, second derivative) lambda triples ---- *)"]
     for name, (dom, tr, line) in triples.items():
         L.append(f"(* _autodiff.py:{line} DifferentiableMath.{name} *)")
-        L.append(f"Definition {name}_f : uexpr := {tr[0]}.")
-        L.append(f"Definition {name}_f' : uexpr := {tr[1]}.")
-        L.append(f"Definition {name}_f'' : uexpr := {tr[2]}.")
+        L.append(f"Definition {name}_f : uexpr := {coq_of(tr[0])}.")
+        L.append(f"Definition {name}_f' : uexpr := {coq_of(tr[1])}.")
+        L.append(f"Definition {name}_f'' : uexpr := {coq_of(tr[2])}.")
         L.append(f"Definition {name}_dom : dom := {dom}.")
     L.append("(* atan2: derivatives from atan(y/x), or from -atan(x/y) when |atan2(y,x)| is within 0.1 of pi/2;")
     L.append("   the value is overwritten with math.atan2(y, x) in both branches *)")
-    L.append(f"Definition atan2_branch_x_not_0 : uexpr := {br['atan2_derivs_x_not_0']}.")
-    L.append(f"Definition atan2_branch_x_close_0 : uexpr := {br['atan2_derivs_x_close_0']}.")
+    L.append(f"Definition atan2_branch_x_not_0 : uexpr := {coq_of(br['atan2_derivs_x_not_0'])}.")
+    L.append(f"Definition atan2_branch_x_close_0 : uexpr := {coq_of(br['atan2_derivs_x_close_0'])}.")
     L += ["", "Section Gen.", "Variable K : ops.",
           "Local Notation vadd := (Sums.vadd (car K) (fadd K)).",
           "Local Notation vsub := (Sums.vsub (car K) (fsub K)).",
@@ -599,14 +608,20 @@ def main():
     if old != txt:
         with open(OUT, "w") as f:
             f.write(txt)
-    return {"sha256": sha, "definitions": [d[0] for d in defs + dl], "triples": list(triples),
-            "domains": {k: v[0] for k, v in triples.items()}}
+    return {"sha256": sha, "definitions": [d[0] for d in defs + dl],
+            "triples": {k: v[1] for k, v in triples.items()},
+            "domains": {k: v[0] for k, v in triples.items()},
+            "atan2": {"x_not_0": br["atan2_derivs_x_not_0"], "x_close_0": br["atan2_derivs_x_close_0"]}}
 
 
 if __name__ == "__main__":
     try:
         info = main()
-        print("translated:", info)
+        print("translated:", {"sha256": info["sha256"][:16], "definitions": len(info["definitions"]),
+                              "triples": sorted(info["triples"]), "domains": info["domains"]})
+        if "--json" in sys.argv:
+            import json
+            print("JSON:" + json.dumps(info))
     except Untranslatable as e:
         print("UNTRANSLATABLE:", e)
         sys.exit(3)
